@@ -667,6 +667,18 @@ class UpdateCollection(Message):
             # MP_REACH_NLRI contains nexthop - use iter_routed() for RoutedNLRI
             announces.extend(reach.iter_routed())
 
+        if announces and (
+            Attribute.CODE.ORIGIN not in attributes
+            or Attribute.CODE.AS_PATH not in attributes
+            or (bool(announced_view) and Attribute.CODE.NEXT_HOP not in attributes)
+        ):
+            # RFC 7606 section 3.d: an UPDATE which announces routes without one of the well-known
+            # mandatory attributes is treat-as-withdraw (RFC 4271 made it a session reset): the routes
+            # were announced with no origin, path or next hop at all
+            log.warning(lazymsg('update.mandatory.missing action=treat-as-withdraw'), 'parser')
+            withdraws.extend(routed.nlri for routed in announces)
+            announces = []
+
         if Attribute.CODE.INTERNAL_TREAT_AS_WITHDRAW in attributes:
             # RFC 7606: the routes of an UPDATE with a malformed attribute are withdrawn, never announced
             withdraws.extend(routed.nlri for routed in announces)
